@@ -111,6 +111,14 @@ class Driver:
                 return _time.gmtime(drv.now)
         mysensors.handler.time = _T
         mysensors.task.threading.Timer = FakeTimer   # virtual timer (only used with persistence)
+        self.aproxy = None
+        if flavour == "async" and persistence_file:
+            from .pdrv import AsyncioProxy
+            self.aproxy = AsyncioProxy()             # asyncio.sleep of the save loop parks on a future the harness releases
+            mysensors.task.asyncio = self.aproxy
+        else:
+            import asyncio as _asyncio
+            mysensors.task.asyncio = _asyncio
         self.gw = None
         self.pers_started = False
         self._new_gateway()
@@ -404,11 +412,30 @@ class Driver:
         self.gw.metric = b
         return self._emit_event({"a": "Metric", "b": bool(b)}, None)
 
+    def _until_parked(self):
+        import asyncio
+
+        async def wait():
+            try:
+                await asyncio.wait_for(self.aproxy.parked.wait(), 2)
+            except asyncio.TimeoutError:
+                pass
+        return wait()
+
     def start_persistence(self):
         raised = None
         self.ops.append(["start_persistence"])
         try:
-            self.gw.start_persistence()
+            if self.flavour == "async":
+                import asyncio
+
+                async def go():
+                    self.aproxy.parked = asyncio.Event()
+                    await self.gw.start_persistence()
+                    await self._until_parked()
+                self._loop().run_until_complete(go())
+            else:
+                self.gw.start_persistence()
         except Exception as exc:  # pylint: disable=broad-except
             raised = type(exc).__name__
         self.pers_started = True
@@ -419,9 +446,22 @@ class Driver:
         self.ops.append(["tick"])
         timers = list(FakeTimer.armed)
         try:
-            for t in timers:
-                FakeTimer.armed.remove(t)
-                t.function()
+            if self.flavour == "async":
+                import asyncio
+                timers = [f for f in self.aproxy.sleepers if not f.done()]
+
+                async def go():
+                    self.aproxy.parked = asyncio.Event()
+                    for f in timers:
+                        f.set_result(None)
+                    self.aproxy.sleepers = [f for f in self.aproxy.sleepers if not f.done()]
+                    if timers:
+                        await self._until_parked()
+                self._loop().run_until_complete(go())
+            else:
+                for t in timers:
+                    FakeTimer.armed.remove(t)
+                    t.function()
         except Exception as exc:  # pylint: disable=broad-except
             raised = type(exc).__name__
         return self._emit_event({"a": "Tick", "timers": len(timers)}, raised, with_disk=True)
@@ -430,10 +470,14 @@ class Driver:
         raised = None
         self.ops.append(["stop_restart"])
         try:
-            self.gw.stop()
+            if self.flavour == "async":
+                self._loop().run_until_complete(self.gw.stop())
+                self.aproxy.sleepers = [f for f in self.aproxy.sleepers if not f.done()]
+            else:
+                self.gw.stop()
         except Exception as exc:  # pylint: disable=broad-except
             raised = type(exc).__name__
-        armed_after = len(FakeTimer.armed)
+        armed_after = len(FakeTimer.armed) if self.flavour == "sync" else len(self.aproxy.sleepers)
         self._new_gateway()
         ev = self._emit_event({"a": "StopRestart", "armed_after_stop": armed_after}, raised, with_disk=True)
         return ev
